@@ -666,6 +666,10 @@ def catalogue_uniform(N=6):
         "ConstMul": ["ConstMul", {"c": "pos"}, P], "ConstMulNeg": ["ConstMul", {"c": "neg"}, P],
         "BlockDiag": ["BlockDiag", {"k": 2}, D(n, kind="psd")], "BlockInterleaved": ["BlockInterleaved", {"k": 2}, D(n, kind="psd")],
         "SumBatch": ["SumBatch", {"k": 2}, P], "BatchRepeat": ["BatchRepeat", {"r": 2}, P],
+        # non-symmetric instances of the wrappers: a symmetric block hides a missing / spurious transpose
+        "BlockDiagGen": ["BlockDiag", {"k": 2}, D(n)], "BlockInterleavedGen": ["BlockInterleaved", {"k": 2}, D(n)],
+        "SumBatchGen": ["SumBatch", {"k": 2}, D(N)], "BatchRepeatGen": ["BatchRepeat", {"r": 2}, D(N)],
+        "ConstMulGen": ["ConstMul", {"c": "pos"}, D(N)],
         "CatRows": ["Cat", {"dim": -2}, D(2, N), D(N - 2, N)],
         "Interp": ["Interp", {"mode": "general", "m": N, "n": N}, D(n + 1, kind="psd")],
         "InterpSym": ["Interp", {"mode": "sym", "m": N}, D(n + 1, kind="psd")],
